@@ -127,6 +127,10 @@ def r_try_sign(j):
     return "CTrySign %s %s %s %s %s" % (nat(HASH_N[j["hash"]]), b(j["blob"]), b(j["msg"]), rbytes(j["sig"]), rbytes(j["after"]))
 
 
+def r_hash(j):
+    return "CHash %s %s %s" % (nat(HASH_N[j["hash"]]), b(j["data"]), b(j["out"]))
+
+
 def r_lifetime(j):
     return "CLifetime %s %s %s" % (nat(HASH_N[j["hash"]]), b(j["blob"]), rnum(j["life"]))
 
@@ -136,6 +140,7 @@ KINDS = {
     "sign": r_sign,
     "verify": r_verify,
     "lifetime": r_lifetime,
+    "hash": r_hash,
     "try_sign": r_try_sign,
     "ots_param": r_ots_param,
     "coefs": r_coefs,
